@@ -15,56 +15,60 @@ Proof.
 Qed.
 
 Section Extensions.
-Variables (q : quirks) (sc : scope) (r : nat) (tid : N) (fl : flags).
+Variables (q : quirks) (sc : scope) (ps : pos) (tid : N) (pa : option N) (fl : flags).
 
 (* 1. d[k] = MISSING_VALUE deletes the key k (and is a no-op when k is absent) *)
 Theorem ext_missing_deletes : forall st its a k st' out,
-  root_is st r tid KDict fl its -> clean its -> permits sc fl ->
-  exec q sc st (r, []) tid KDict [] fl its (DSet a k (RLeaf LMissing)) = (st', out) ->
-  out = Ok RNone /\ dwrote st r tid fl st' (PyDict.ddel key_eqb k (eitems its)).
+  wfs st -> at_is st ps tid KDict pa fl its -> clean its -> anc_clean st ps -> permits sc fl ->
+  exec q sc st ps tid KDict (snd ps) fl its (DSet a k (RLeaf LMissing)) = (st', out) ->
+  out = Ok RNone /\ dwrote st ps tid pa fl st' (PyDict.ddel key_eqb k (eitems its)).
 Proof.
-  intros st its a k st' out R C [SL AW] E. unfold exec in E. rewrite SL, AW in E. cbn [negb] in E.
-  destruct (assoc k its) as [old|] eqn:A.
-  - destruct (dprim q sc st (r, []) k (RLeaf LMissing)) as [st1 p] eqn:D.
-    destruct (dprim_del q sc st r tid fl its R C k st1 p ltac:(unfold has_key; rewrite A; auto) D) as [PP WR].
+  intros st its a k st' out W R C A [SL AW] E. unfold exec in E. rewrite SL, AW in E. cbn [negb] in E.
+  destruct (assoc k its) as [old|] eqn:AS.
+  - destruct (dprim q sc st ps k (RLeaf LMissing)) as [st1 p] eqn:D.
+    destruct (dprim_del q sc st ps tid pa fl its R C A W k st1 p ltac:(unfold has_key; rewrite AS; auto) D) as [PP WR].
     subst p. inv E. split; auto. apply dwrote_fix_chain; auto.
-  - assert (D : dprim q sc st (r, []) k (RLeaf LMissing) = (st, PNone)).
-    { unfold dprim. rewrite get_at_root, R, A. reflexivity. }
+  - assert (D : dprim q sc st ps k (RLeaf LMissing) = (st, PNone)).
+    { unfold dprim. unfold at_is in R. rewrite R, AS. reflexivity. }
     rewrite D in E. inv E. split; auto.
-    rewrite ddel_absent by (rewrite dget_eitems, A; auto). apply dwrote_refl; auto.
+    rewrite ddel_absent by (rewrite dget_eitems, AS; auto). apply dwrote_refl; auto.
+Qed.
+
+Lemma rebind_one_single : forall st its z rv,
+  at_is st ps tid KList pa fl its -> treats_as_sealed sc fl = false ->
+  rebind_one q sc st ps [KI z] rv = (fst (lprim q sc st ps (KI z) rv), snd (lprim q sc st ps (KI z) rv), Some tid).
+Proof.
+  intros st its z rv R SL. unfold rebind_one. unfold at_is in R. simpl. rewrite R. cbv iota beta.
+  rewrite app_nil_r, <- surjective_pairing, R. cbv iota beta. rewrite SL.
+  unfold prim. rewrite R. cbv iota beta. destruct (lprim q sc st ps (KI z) rv); reflexivity.
 Qed.
 
 (* 2. rebinding an index at or past the end appends: the write of rebind({z: v}) with z >= len(l) *)
 Theorem ext_rebind_past_end_appends : forall st its z rv st' p c,
-  root_is st r tid KList fl its -> clean its -> treats_as_sealed sc fl = false -> storable_rv rv -> zlen its <= z ->
-  rebind_one q sc st (r, []) [KI z] rv = (st', p, c) ->
-  p = PUpd /\ wrote st r tid fl st' (evals its ++ [prv rv]).
+  wfs st -> at_is st ps tid KList pa fl its -> clean its -> anc_clean st ps -> treats_as_sealed sc fl = false ->
+  storable_rv rv -> zlen its <= z ->
+  rebind_one q sc st ps [KI z] rv = (st', p, c) ->
+  p = PUpd /\ wrote st ps tid pa fl st' (evals its ++ [prv rv]).
 Proof.
-  intros st its z rv st' p c R C SL SV GE E. unfold rebind_one in E.
-  unfold root_is in R. simpl in E. rewrite !get_at_root, R in E. cbv iota beta in E. rewrite SL in E.
-  unfold prim in E. rewrite get_at_root, R in E. cbv iota beta in E.
-  destruct (lprim q sc st (r, []) (KI z) rv) as [st1 p1] eqn:L. inv E.
+  intros st its z rv st' p c W R C A SL SV GE E. rewrite (rebind_one_single _ _ _ _ R SL) in E.
+  destruct (lprim q sc st ps (KI z) rv) as [st1 p1] eqn:L. inv E.
   eapply lprim_append; eauto.
 Qed.
 
 (* 3. an insertion marker inserts (with list.insert's clamping of the index): l.insert(z, v) and rebind({z: Insertion(v)}) *)
 Theorem ext_insertion_inserts : forall st its z rv st' p c,
-  root_is st r tid KList fl its -> clean its -> treats_as_sealed sc fl = false -> storable_rv rv ->
-  rebind_one q sc st (r, []) [KI z] (RIns rv) = (st', p, c) ->
-  p = PUpd /\ wrote st r tid fl st' (PyList.insert (evals its) z (prv rv)).
+  wfs st -> at_is st ps tid KList pa fl its -> clean its -> anc_clean st ps -> treats_as_sealed sc fl = false -> storable_rv rv ->
+  rebind_one q sc st ps [KI z] (RIns rv) = (st', p, c) ->
+  p = PUpd /\ wrote st ps tid pa fl st' (PyList.insert (evals its) z (prv rv)).
 Proof.
-  intros st its z rv st' p c R C SL SV E. unfold rebind_one in E.
-  unfold root_is in R. simpl in E. rewrite !get_at_root, R in E. cbv iota beta in E. rewrite SL in E.
-  unfold prim in E. rewrite get_at_root, R in E. cbv iota beta in E.
-  destruct (lprim q sc st (r, []) (KI z) (RIns rv)) as [st1 p1] eqn:L. inv E.
+  intros st its z rv st' p c W R C A SL SV E. rewrite (rebind_one_single _ _ _ _ R SL) in E.
+  destruct (lprim q sc st ps (KI z) (RIns rv)) as [st1 p1] eqn:L. inv E.
   eapply lprim_insert; eauto.
 Qed.
 
 (* 4. a nested plain container (a Python list / dict literal) is stored as a symbolic node: it denotes the same value,
    names the container as its parent and its position as its path *)
-Lemma ctor_seal_header : forall i k pa p f its, exists f' its', ctor_seal (Node i k pa p f its) = Node i k pa p f' its'.
-Proof. intros; simpl. destruct (f_sealed f); simpl; eauto. Qed.
-Theorem ext_plain_becomes_symbolic : forall st ck cid cfl tp ins k f lits nw st1,
+Theorem ext_plain_becomes_symbolic : forall st r ck cid cfl tp ins k f lits nw st1,
   formalize q sc st r ck cid cfl tp ins (RLit (LitNode k f true lits)) = (nw, st1) ->
   erase nw = plit (LitNode k f true lits) /\
   exists i f' its', nw = Node i k (Some cid) tp f' its'.
